@@ -5,15 +5,23 @@
    On such trees shake_1 only regroups the members of or-groups by (field, cast, case):
    same-field needles become one automaton, same-field regexes one regex set, the rest is
    sorted; and-groups keep their members.  The claim is three-valued exactness for every
-   document and every hash order.  (With nested blocks the pass is not exact: D16, D29.) *)
+   document and every hash order.  (With nested blocks the pass is not exact: D16, D29.)
+   `ord` stands for the iteration order of a hash map: the statements assume it is a permutation
+   of the keys (an `ord` that drops keys drops merged searches: shake1_exact_flat_refuted), the
+   convention of C12.  The first version of three statements lacked that hypothesis (and
+   cmp_leaves) and was refuted by the proof attempt; the counterexamples are kept below. *)
+From Coq Require Import Permutation.
 From TauModel Require Import Base Num Oracles Syntax Value Solver Rule Keys Optimiser Known.
-From TauProofs Require C01 C01_shake1.
+From TauModel Require Import Yaml Pratt ParseMap.
+From TauModel Require Scope.
+From TauProofs Require C01 C01_shake1 C01_flat.
 
 (* shake_1 alone, any fuel, any hash order *)
 Theorem shake1_exact_flat : forall o ord fuel e (d : doc),
-  wf_body e = true -> C01.no_nested e = true ->
+  (forall l, Permutation (ord l) l) ->
+  wf_body e = true -> C01.no_nested e = true -> C01.cmp_leaves e = true ->
   solve_body o (shake1 ord fuel e) (pure_doc d) = solve_body o e (pure_doc d).
-Proof. exact C01_shake1.shake1_exact_flat. Qed.
+Proof. exact C01_shake1.shake1_exact_flat_alt. Qed.
 Check shake1_exact_flat.
 Print Assumptions shake1_exact_flat.
 
@@ -27,11 +35,12 @@ Print Assumptions shake1_keeps_flat.
 
 (* the whole shake pass (shake_0 then shake_1) outside D13 / D14 *)
 Theorem shake_exact_flat : forall o ord e e' (d : doc),
+  (forall l, Permutation (ord l) l) ->
   wf_body e = true -> C01.no_nested e = true ->
   C01.sh0 e = true -> C01.no_dneg e = true -> C01.shx e = true ->
   shake ord e = Ok e' ->
   solve_body o e' (pure_doc d) = solve_body o e (pure_doc d).
-Proof. exact C01_shake1.shake_exact_flat. Qed.
+Proof. exact C01_shake1.shake_exact_flat_alt. Qed.
 Check shake_exact_flat.
 Print Assumptions shake_exact_flat.
 
@@ -52,6 +61,7 @@ Definition shake_input_ok (o : oracles) (sw : switches) (dt : detection) : bool 
           (all_trees (staged sw dt)).
 
 Theorem optimise_no_matrix_exact_flat : forall o ord sw r (d : doc),
+  (forall l, Permutation (ord l) l) ->
   C01.H_strip o ->
   sw_matrix sw = false ->
   wf_det (r_det r) = true -> r_optimised r = false ->
@@ -61,9 +71,38 @@ Theorem optimise_no_matrix_exact_flat : forall o ord sw r (d : doc),
   exists r', optimise o ord sw r = Ok r' /\
              solve_rule3 o (r_det r') (pure_doc d) = solve_rule3 o (r_det r) (pure_doc d) /\
              matches o r' d = matches o r d.
-Proof. exact C01_shake1.optimise_no_matrix_exact_flat. Qed.
+Proof. exact C01_shake1.optimise_no_matrix_exact_flat_alt. Qed.
 Check optimise_no_matrix_exact_flat.
 Print Assumptions optimise_no_matrix_exact_flat.
+
+(* hence, for EVERY rule the loader accepts (no shape hypothesis on the condition: the Pratt
+   parser's output has the shapes, C01_loaded): with matrix off, every hash order, every
+   document, optimise returns and the verdict is unchanged -- provided the trees handed to shake
+   are nested-free and outside D13/D14 (executable: shake_input_ok) and, without coalesce, the
+   condition does not count the members of an identifier (D15) *)
+Theorem loaded_rule_no_matrix_flat : forall o ic ord sw y r (d : doc),
+  (forall l, Permutation (ord l) l) ->
+  C01.H_strip o ->
+  load_rule o ic y = Ok r -> r_optimised r = false ->
+  sw_matrix sw = false ->
+  (sw_coalesce sw = true \/ no_quant_ident (d_expr (r_det r)) = true) ->
+  (sw_shake sw = true -> shake_input_ok o sw (r_det r) = true) ->
+  exists r', optimise o ord sw r = Ok r' /\ matches o r' d = matches o r d.
+Proof. exact C01_flat.loaded_rule_no_matrix_flat. Qed.
+Check loaded_rule_no_matrix_flat.
+Print Assumptions loaded_rule_no_matrix_flat.
+
+(* the same with the hypotheses as ONE executable predicate (Model/Scope.v), which the runner
+   evaluates on every generated rule: inside the scope the check accepts no verdict change at all *)
+Theorem scope_sound : forall o ic ord sw y r (d : doc),
+  (forall l, Permutation (ord l) l) ->
+  C01.H_strip o ->
+  load_rule o ic y = Ok r -> r_optimised r = false ->
+  Scope.c01_scope sw (r_det r) = true ->
+  exists r', optimise o ord sw r = Ok r' /\ matches o r' d = matches o r d.
+Proof. exact C01_flat.scope_sound. Qed.
+Check scope_sound.
+Print Assumptions scope_sound.
 
 (* non-vacuity: a two-field or-group of five searches is regrouped into two automata and the
    hypotheses hold *)
@@ -79,3 +118,25 @@ Example shake1_flat_example :
                 ESearch (SRegex [101%N] false) f false].
 Proof. exact C01_shake1.shake1_flat_example. Qed.
 Check shake1_flat_example.
+
+(* the counterexamples to the first versions of the statements *)
+Example shake1_exact_flat_refuted_ord :
+  let f := [102%N] in let g := [103%N] in
+  let e := EGroup BOr [ESearch (SContains [97%N]) f false; ESearch (SContains [98%N]) g false] in
+  let d : doc := fun k => if str_eqb k f then Some (VStr [97%N]) else None in
+  wf_body e = true /\ C01.no_nested e = true /\ C01.cmp_leaves e = true /\
+  shake1 (fun _ => []) 5 e = EGroup BOr [] /\
+  solve_body C01.o0 e (pure_doc d) = Ok T /\
+  solve_body C01.o0 (shake1 (fun _ => []) 5 e) (pure_doc d) = Ok M.
+Proof. exact C01_shake1.shake1_exact_flat_refuted. Qed.
+Check shake1_exact_flat_refuted_ord.
+Example shake1_exact_flat_refuted_cmp :
+  let f := [102%N] in
+  let e := EBexp (EGroup BOr [EField f]) BEqual (EInt 1) in
+  let d : doc := fun k => if str_eqb k f then Some (VInt 1) else None in
+  wf_body e = true /\ C01.no_nested e = true /\
+  shake1 (fun k => k) 5 e = EBexp (EField f) BEqual (EInt 1) /\
+  solve_body C01.o0 e (pure_doc d) = Ok F /\
+  solve_body C01.o0 (shake1 (fun k => k) 5 e) (pure_doc d) = Ok T.
+Proof. exact C01_shake1.shake1_exact_flat_refuted_cmp. Qed.
+Check shake1_exact_flat_refuted_cmp.
